@@ -32,10 +32,10 @@ REQUIRED_THEOREMS += ["emit_scope_end_spec", "captured_slots_are_closed", "break
                       "continue_statement_skeleton", "end_scope_skeleton"]
 # the state the models abstract is all the state there is: the fields of the run-time structures, regenerated on every run, are the ones
 # the models were written against (Props/StateInventory)
-THEOREM_MODULES.append("Yarel.Props.StateInventory")
+THEOREM_MODULES.append("Yarel.Props.StateInventory.state_of_heap")
 REQUIRED_THEOREMS += ['state_of_heap']
 # who writes the state the mechanism models are about: the set of write sites per group of fields, regenerated on every run (Props/StateWrites)
-THEOREM_MODULES.append("Yarel.Props.StateWrites")
+THEOREM_MODULES.append("Yarel.Props.StateWrites.writers_of_heap_accounting")
 REQUIRED_THEOREMS += ['writers_of_heap_accounting']
 USES_GEN = True
 LEVEL = "proof"
